@@ -193,7 +193,9 @@ func (t *Typedef) resolve(d *typeDictionary) []error {
 // cannot be resolved then one or more errors are returned.
 func (t *Type) resolve(d *typeDictionary) (errs []error) {
 	if t.YangType != nil {
-		return nil
+		// Already resolved: report again what was found then, so that
+		// every Process of the same set returns the same errors.
+		return t.resolveErrs
 	}
 
 	// If t.Name is a base type then td will not be nil, otherwise
@@ -276,6 +278,7 @@ check:
 
 	y.Base = td.Type
 	t.YangType = &y
+	defer func() { t.resolveErrs = errs }()
 
 	if v := t.RequireInstance; v != nil {
 		b, err := v.asBool()
